@@ -1,5 +1,146 @@
+import BlockCiphers.Proofs.AesNiPar
+import BlockCiphers.Proofs.AesFs64Lanes
+import BlockCiphers.Proofs.AesFs64Aes128
+import BlockCiphers.Proofs.AesFs64Aes192
+import BlockCiphers.Proofs.AesFs64Aes256
+import BlockCiphers.Proofs.AesFs32Lanes
 /-
-C04 — theorem file (property theorems only).  Filled in as the models it needs are merged; see DESIGN §7 C04.
+C04 — multi-block and buffer-to-buffer calls equal per-block calls
+GENERATED statement file (tools/gen_thm.py): every theorem below restates, verbatim, a theorem of a Proofs/ module
+and is proved by applying it.  ONLY property theorems and non-vacuity examples live in Thm/.
+AES-NI: the unrolled 9-lane parallel form = map of the single-block function for any number of lanes; fixslice: block j of a batch result
+depends only on block j (lane_indep) and a batch under one key = map of the single-block function (uniform).  Every other cipher has
+ParBlocksSize = 1: its multi-block call is the cipher crate's loop over encrypt_block (modelled as `map` in History.fresh).  The memory part
+(nothing outside the output blocks is written) is observed by canaries only — partial, see DESIGN §7 C04.
 -/
-namespace BC.Thm.C04
-end BC.Thm.C04
+
+namespace BC.AesNi
+open BC BC.X86
+/-- `encrypt_par` = lane-wise `encrypt` whenever the key array has one of the three legal sizes -/
+theorem C04.ni_encrypt_par_eq_map (keys bs : List (BitVec 128)) (h : keys.length = 11 ∨ keys.length = 13 ∨ keys.length = 15) :
+    encrypt_par keys bs = bs.map (encrypt keys) :=
+  _root_.BC.AesNi.encrypt_par_eq_map keys bs h
+end BC.AesNi
+
+namespace BC.AesNi
+open BC BC.X86
+/-- `decrypt_par` = lane-wise `decrypt` whenever the key array has one of the three legal sizes -/
+theorem C04.ni_decrypt_par_eq_map (keys bs : List (BitVec 128)) (h : keys.length = 11 ∨ keys.length = 13 ∨ keys.length = 15) :
+    decrypt_par keys bs = bs.map (decrypt keys) :=
+  _root_.BC.AesNi.decrypt_par_eq_map keys bs h
+end BC.AesNi
+
+namespace BC.AesFs64
+open BC.Spec.Aes
+/-- C04: block `j` of the result depends only on block `j` of the input (any round keys) -/
+theorem C04.aes128_encrypt_lane_indep (rk : Nat → St) (x y : Batch) :
+    (x.b0 = y.b0 → (aes128_encrypt rk x).b0 = (aes128_encrypt rk y).b0) ∧ (x.b1 = y.b1 → (aes128_encrypt rk x).b1 = (aes128_encrypt rk y).b1) ∧
+    (x.b2 = y.b2 → (aes128_encrypt rk x).b2 = (aes128_encrypt rk y).b2) ∧ (x.b3 = y.b3 → (aes128_encrypt rk x).b3 = (aes128_encrypt rk y).b3) :=
+  _root_.BC.AesFs64.aes128_encrypt_lane_indep rk x y
+end BC.AesFs64
+
+namespace BC.AesFs64
+open BC.Spec.Aes
+/-- C04: block `j` of the result depends only on block `j` of the input (any round keys) -/
+theorem C04.aes128_decrypt_lane_indep (rk : Nat → St) (x y : Batch) :
+    (x.b0 = y.b0 → (aes128_decrypt rk x).b0 = (aes128_decrypt rk y).b0) ∧ (x.b1 = y.b1 → (aes128_decrypt rk x).b1 = (aes128_decrypt rk y).b1) ∧
+    (x.b2 = y.b2 → (aes128_decrypt rk x).b2 = (aes128_decrypt rk y).b2) ∧ (x.b3 = y.b3 → (aes128_decrypt rk x).b3 = (aes128_decrypt rk y).b3) :=
+  _root_.BC.AesFs64.aes128_decrypt_lane_indep rk x y
+end BC.AesFs64
+
+namespace BC.AesFs64
+open BC.Spec.Aes
+/-- C04: block `j` of the result depends only on block `j` of the input (any round keys) -/
+theorem C04.aes192_encrypt_lane_indep (rk : Nat → St) (x y : Batch) :
+    (x.b0 = y.b0 → (aes192_encrypt rk x).b0 = (aes192_encrypt rk y).b0) ∧ (x.b1 = y.b1 → (aes192_encrypt rk x).b1 = (aes192_encrypt rk y).b1) ∧
+    (x.b2 = y.b2 → (aes192_encrypt rk x).b2 = (aes192_encrypt rk y).b2) ∧ (x.b3 = y.b3 → (aes192_encrypt rk x).b3 = (aes192_encrypt rk y).b3) :=
+  _root_.BC.AesFs64.aes192_encrypt_lane_indep rk x y
+end BC.AesFs64
+
+namespace BC.AesFs64
+open BC.Spec.Aes
+/-- C04: block `j` of the result depends only on block `j` of the input (any round keys) -/
+theorem C04.aes192_decrypt_lane_indep (rk : Nat → St) (x y : Batch) :
+    (x.b0 = y.b0 → (aes192_decrypt rk x).b0 = (aes192_decrypt rk y).b0) ∧ (x.b1 = y.b1 → (aes192_decrypt rk x).b1 = (aes192_decrypt rk y).b1) ∧
+    (x.b2 = y.b2 → (aes192_decrypt rk x).b2 = (aes192_decrypt rk y).b2) ∧ (x.b3 = y.b3 → (aes192_decrypt rk x).b3 = (aes192_decrypt rk y).b3) :=
+  _root_.BC.AesFs64.aes192_decrypt_lane_indep rk x y
+end BC.AesFs64
+
+namespace BC.AesFs64
+open BC.Spec.Aes
+/-- C04: block `j` of the result depends only on block `j` of the input (any round keys) -/
+theorem C04.aes256_encrypt_lane_indep (rk : Nat → St) (x y : Batch) :
+    (x.b0 = y.b0 → (aes256_encrypt rk x).b0 = (aes256_encrypt rk y).b0) ∧ (x.b1 = y.b1 → (aes256_encrypt rk x).b1 = (aes256_encrypt rk y).b1) ∧
+    (x.b2 = y.b2 → (aes256_encrypt rk x).b2 = (aes256_encrypt rk y).b2) ∧ (x.b3 = y.b3 → (aes256_encrypt rk x).b3 = (aes256_encrypt rk y).b3) :=
+  _root_.BC.AesFs64.aes256_encrypt_lane_indep rk x y
+end BC.AesFs64
+
+namespace BC.AesFs64
+open BC.Spec.Aes
+/-- C04: block `j` of the result depends only on block `j` of the input (any round keys) -/
+theorem C04.aes256_decrypt_lane_indep (rk : Nat → St) (x y : Batch) :
+    (x.b0 = y.b0 → (aes256_decrypt rk x).b0 = (aes256_decrypt rk y).b0) ∧ (x.b1 = y.b1 → (aes256_decrypt rk x).b1 = (aes256_decrypt rk y).b1) ∧
+    (x.b2 = y.b2 → (aes256_decrypt rk x).b2 = (aes256_decrypt rk y).b2) ∧ (x.b3 = y.b3 → (aes256_decrypt rk x).b3 = (aes256_decrypt rk y).b3) :=
+  _root_.BC.AesFs64.aes256_decrypt_lane_indep rk x y
+end BC.AesFs64
+
+namespace BC.AesFs64
+open BC.Spec.Aes
+/-- C04: block `j` of the result depends only on block `j` of the input (any round keys) -/
+theorem C04.aes128_encrypt_compact_lane_indep (rk : Nat → St) (x y : Batch) :
+    (x.b0 = y.b0 → (aes128_encrypt_compact rk x).b0 = (aes128_encrypt_compact rk y).b0) ∧ (x.b1 = y.b1 → (aes128_encrypt_compact rk x).b1 = (aes128_encrypt_compact rk y).b1) ∧
+    (x.b2 = y.b2 → (aes128_encrypt_compact rk x).b2 = (aes128_encrypt_compact rk y).b2) ∧ (x.b3 = y.b3 → (aes128_encrypt_compact rk x).b3 = (aes128_encrypt_compact rk y).b3) :=
+  _root_.BC.AesFs64.aes128_encrypt_compact_lane_indep rk x y
+end BC.AesFs64
+
+namespace BC.AesFs64
+open BC.Spec.Aes
+/-- C04: block `j` of the result depends only on block `j` of the input (any round keys) -/
+theorem C04.aes128_decrypt_compact_lane_indep (rk : Nat → St) (x y : Batch) :
+    (x.b0 = y.b0 → (aes128_decrypt_compact rk x).b0 = (aes128_decrypt_compact rk y).b0) ∧ (x.b1 = y.b1 → (aes128_decrypt_compact rk x).b1 = (aes128_decrypt_compact rk y).b1) ∧
+    (x.b2 = y.b2 → (aes128_decrypt_compact rk x).b2 = (aes128_decrypt_compact rk y).b2) ∧ (x.b3 = y.b3 → (aes128_decrypt_compact rk x).b3 = (aes128_decrypt_compact rk y).b3) :=
+  _root_.BC.AesFs64.aes128_decrypt_compact_lane_indep rk x y
+end BC.AesFs64
+
+namespace BC.AesFs64
+open BC.Spec.Aes
+/-- lane-uniform keys: the batch call is the single-block function in every lane (C04 `encs = map enc`) -/
+theorem C04.aes128_encrypt_uniform (rk : Nat → St) (k : Nat → BitVec 128)
+    (h : ∀ r, r ≤ 10 → rk r = fsKey 10 r (uniformKeys k r)) (b : Batch) :
+    aes128_encrypt rk b = b.map (cipherK 10 k) ∧ ∀ x, single (aes128_encrypt rk) x = cipherK 10 k x :=
+  _root_.BC.AesFs64.aes128_encrypt_uniform rk k h b
+end BC.AesFs64
+
+namespace BC.AesFs64
+open BC.Spec.Aes
+/-- lane-uniform keys: the batch call is the single-block function in every lane (C04 `encs = map enc`) -/
+theorem C04.aes128_decrypt_uniform (rk : Nat → St) (k : Nat → BitVec 128)
+    (h : ∀ r, r ≤ 10 → rk r = fsKey 10 r (uniformKeys k r)) (b : Batch) :
+    aes128_decrypt rk b = b.map (invCipherK 10 k) ∧ ∀ x, single (aes128_decrypt rk) x = invCipherK 10 k x :=
+  _root_.BC.AesFs64.aes128_decrypt_uniform rk k h b
+end BC.AesFs64
+
+namespace BC.AesFs64
+open BC.Spec.Aes
+/-- lane-uniform keys: the batch call is the single-block function in every lane (C04 `encs = map enc`) -/
+theorem C04.aes192_encrypt_uniform (rk : Nat → St) (k : Nat → BitVec 128)
+    (h : ∀ r, r ≤ 12 → rk r = fsKey 12 r (uniformKeys k r)) (b : Batch) :
+    aes192_encrypt rk b = b.map (cipherK 12 k) ∧ ∀ x, single (aes192_encrypt rk) x = cipherK 12 k x :=
+  _root_.BC.AesFs64.aes192_encrypt_uniform rk k h b
+end BC.AesFs64
+
+namespace BC.AesFs64
+open BC.Spec.Aes
+/-- lane-uniform keys: the batch call is the single-block function in every lane (C04 `encs = map enc`) -/
+theorem C04.aes256_encrypt_uniform (rk : Nat → St) (k : Nat → BitVec 128)
+    (h : ∀ r, r ≤ 14 → rk r = fsKey 14 r (uniformKeys k r)) (b : Batch) :
+    aes256_encrypt rk b = b.map (cipherK 14 k) ∧ ∀ x, single (aes256_encrypt rk) x = cipherK 14 k x :=
+  _root_.BC.AesFs64.aes256_encrypt_uniform rk k h b
+end BC.AesFs64
+
+namespace BC.AesFs64
+open BC.Spec.Aes
+/-- C04: slot 0 of a batch call = `soft.rs` single-block call on that block -/
+theorem C04.aes128_encrypt_lane0 (rk : Nat → St) (b : Batch) : (aes128_encrypt rk b).b0 = single (aes128_encrypt rk) b.b0 :=
+  _root_.BC.AesFs64.aes128_encrypt_lane0 rk b
+end BC.AesFs64
